@@ -324,9 +324,18 @@ def main(argv):
     sys.path.insert(0, ROOT)
     mod = importlib.import_module("props." + a.id)
     ctx = Ctx(a.id, a.tier if a.tier in ("quick", "thorough") else "quick", seed, a.replay)
+    # overall time budget: a check never runs unbounded (a changed tree may make a harness hang)
+    import signal
+    budget = int(os.environ.get("VERIF_BUDGET_S", "1500" if ctx.tier == "quick" else "5400"))
+    def _over(signum, frame):
+        raise TimeoutError(f"check exceeded its {budget} s time budget ({ctx.tier} tier): a harness or build is hanging")
+    signal.signal(signal.SIGALRM, _over)
+    signal.alarm(budget)
     try:
         mod.run(ctx)
+        signal.alarm(0)
     except Exception as e:  # machinery failure: the property is not shown to hold
+        signal.alarm(0)
         import traceback
         traceback.print_exc()
         ctx.oblige("check-machinery", False, repr(e))
